@@ -192,12 +192,18 @@ def cursor_models(doc, log):
         for s2, good in fork_bool(it, st, doc.rest_is_ws):
             yield s2, (it.ok(UNIT) if good else it.err(Agg('serde::Error', ('trailing characters',))))
 
+    def T_opt_doc_deserialize(it, ctx, args, st):
+        for s2, r in T_doc_deserialize(it, ctx, args, st):
+            okp = it.payload(r, 'Ok')
+            yield s2, (it.ok(it.some(okp.fields[0])) if okp is not None else r)
+
     models = [
         (r'serde_json::Deserializer::<.*>::from_slice|serde_json::Deserializer::from_slice|serde_smile::Deserializer::<.*>::from_slice|serde_smile::Deserializer::from_slice|serde_smile::de::Deserializer::<.*>::from_slice', M_from_slice),
         (r'serde_json::Deserializer::<.*>::end|serde_json::Deserializer::end|serde_smile::Deserializer::<.*>::end|serde_smile::de::Deserializer::<.*>::end', M_end),
     ]
     tmodels = {('DocT', 'Deserialize', 'deserialize'): T_doc_deserialize, ('serde::de::IgnoredAny', 'Deserialize', 'deserialize'): T_doc_deserialize,
-               ('IgnoredAny', 'Deserialize', 'deserialize'): T_doc_deserialize}
+               ('IgnoredAny', 'Deserialize', 'deserialize'): T_doc_deserialize,
+               ('std::option::Option', 'Deserialize', 'deserialize'): T_opt_doc_deserialize}
     return models, tmodels
 
 
